@@ -9,7 +9,7 @@ import runner_common as rc
 
 LEVEL = "proof"
 OPTS = {"p_abort": 0.75, "p_abort_true": 0.7, "p_special": 0.3, "specials": ["A", "C", "C", "C", "N"],
-        "p_sleep_cancel": 0.15, "p_bs_cancel": 0.12, "p_bs": 0.5, "p_budget": 0.4}
+        "p_sleep_cancel": 0.15, "p_bs_cancel": 0.25, "p_bs": 0.6, "p_budget": 0.4}
 
 
 def run(chk):
